@@ -170,6 +170,7 @@ def _from_producer(g, arg, producers):
 
 
 def tag(run, p):
+    from ..mirror import blocks_of as mirror_blocks
     run.rule('C13-TAG', 'the tag/tagged flag is only ever forwarded (as an argument, or stored as self.tag) or used as the test of a conditional '
                         'whose two arms are group(X) and X: requesting capture groups cannot change what is matched')
     n = 0
@@ -207,6 +208,20 @@ def tag(run, p):
                             ok, how = True, 'group-or-not'
                         if isinstance(wrap, ast.BinOp) and isinstance(wrap.op, ast.Mod) and isinstance(wrap.left, ast.Constant) \
                                 and wrap.left.value == '(%s)' and norm(wrap.right) == norm(plain):
+                            ok, how = True, 'group-or-not'
+                # statement form:  if <tag test>: return group(X)  [else:] return X
+                if isinstance(q, ast.If) and q.test is child and len(q.body) == 1 and isinstance(q.body[0], ast.Return):
+                    alt = None
+                    if len(q.orelse) == 1 and isinstance(q.orelse[0], ast.Return):
+                        alt = q.orelse[0]
+                    elif not q.orelse:
+                        blk = next((b for b in mirror_blocks(f.node) if q in b), None)
+                        if blk is not None and blk.index(q) + 1 < len(blk) and isinstance(blk[blk.index(q) + 1], ast.Return):
+                            alt = blk[blk.index(q) + 1]
+                    if alt is not None and alt.value is not None:
+                        wrap, plain = q.body[0].value, alt.value
+                        if isinstance(wrap, ast.Call) and getattr(wrap.func, 'id', '') == 'capture_group' and len(wrap.args) == 1 \
+                                and norm(wrap.args[0]) == norm(plain):
                             ok, how = True, 'group-or-not'
             run.ob('C13-TAG', '%s::%s::%s' % (f.rel, f.short, norm(par)[:40] if par is not None else u.lineno), ok,
                    '%s in %s is %s: %s' % (norm(u), f.short, how, norm(par)[:60] if par is not None else ''), fn=f, node=u)
